@@ -24,3 +24,59 @@ let () =
       Printf.sprintf "n=%s/%s L=%s A=%s B=%s C=%s" (string_of_n n1) (string_of_n g.nf)
         (join c (take 1 cl)) (join c (take na (drop 1 cl))) (join c (take nb (drop (1 + na) cl)))
         (join c (drop (1 + na + nb) cl)))
+
+(* smp.c19 <memmax> <size> <known> <ops...>: a sequential history on one URL; ops G<w> R<w> P<w> B<w.w.w> *)
+let rec nat_of_int i = if i <= 0 then O else S (nat_of_int (i - 1))
+let fuel50 = nat_of_int 50
+let () =
+  reg "smp.c19" (fun (memmax :: size :: known :: ops) ->
+      let total = n_of_string size in
+      let p = { p_cls = Pos; p_known = (known = "1"); p_total = total } in
+      let c = { smp = true; memmax = n_of_string memmax; par = (fun _ -> p) } in
+      let nw = n_of_int 3 in
+      let sy = all_workers c nw in
+      let g = ref g0 in
+      let out = ref [] in
+      let nclients () = List.length !g.cs in
+      let nth_client i = List.nth !g.cs i in
+      let add () = (g := add_clients !g (S O); nclients () - 1) in
+      let res i = match outcome_of c (nth_client i) with
+        | OFull v -> "F" ^ string_of_n v | OTrunc v -> "T" ^ string_of_n v | OPending -> "P" | ONone -> "N" in
+      let finish_fetches () =
+        (* every started fetch answers completely *)
+        let v = !g.nf in
+        g := run c !g ([EHdr (v, total); EEnd v] @ sy @ sy);
+        g := refetch c nw fuel50 !g;
+        g := run c !g (sy @ sy) in
+      List.iter (fun o ->
+          let kind = o.[0] in
+          let arg = String.sub o 1 (String.length o - 1) in
+          match kind with
+          | 'G' | 'R' ->
+            let ci = add () in
+            let w = n_of_string arg in
+            g := step c !g (if kind = 'G' then EFind (n_of_int ci, w) else EReload (n_of_int ci, w));
+            g := refetch c nw fuel50 !g;
+            g := run c !g (sy @ sy);
+            out := ((String.make 1 kind) ^ ":" ^ res ci) :: !out;
+            g := step c !g (EFin (n_of_int ci))
+          | 'P' ->
+            let w = n_of_string arg in
+            let (_, found) = find c !g w in
+            g := step c !g (EPurge w);
+            out := ("P:" ^ (match found with Some _ -> "200" | None -> "404")) :: !out
+          | 'B' ->
+            let ws = List.map n_of_string (String.split_on_char '.' arg) in
+            let cis = List.map (fun w -> let ci = add () in (ci, w)) ws in
+            (match cis with
+             | (c1, w1) :: rest ->
+               g := step c !g (EFind (n_of_int c1, w1));
+               let started = (match (nth_client c1).c_st with CMiss -> true | _ -> false) in
+               if started then g := step c !g (EStart (n_of_int c1));
+               List.iter (fun (ci, w) -> g := step c !g (EFind (n_of_int ci, w))) rest;
+               if started then finish_fetches () else (g := refetch c nw fuel50 !g; g := run c !g (sy @ sy))
+             | [] -> ());
+            out := ("B:" ^ String.concat "," (List.map (fun (ci, _) -> res ci) cis)) :: !out;
+            List.iter (fun (ci, _) -> g := step c !g (EFin (n_of_int ci))) cis
+          | _ -> failwith "op") ops;
+      Printf.sprintf "n=%s %s" (string_of_n !g.nf) (String.concat " " (List.rev !out)))
